@@ -18,6 +18,7 @@ func (r *Run) Do(op Op) {
 	if r.Poisoned {
 		return
 	}
+	defer r.checkHeld()
 	switch op.K {
 	case "CreateColl", "DropColl", "Purge", "Reopen", "Stable", "Sync", "GhostWrite", "OtherBucketWrite", "StopFeed":
 	default:
